@@ -17,7 +17,7 @@ LEVEL = "exploration"
 RULE = (
     "Hypothesis builds small fonts (fontBuilder + colorLib): 3 simple and 1 composite outline glyph, 1-3 base glyphs with different advances, "
     "paint graphs from a recursive strategy of depth <= 6 over PaintColrLayers, PaintSolid, PaintLinearGradient (incl. oblique p2), "
-    "PaintRadialGradient (r0 >= 0, c0 != c1, focal circle inside), PaintGlyph, PaintColrGlyph (acyclic), PaintTransform, PaintTranslate, "
+    "PaintRadialGradient (r0 >= 0, focal circle inside, concentric or not), PaintGlyph, PaintColrGlyph (acyclic), PaintTransform, PaintTranslate, "
     "PaintScale / AroundCenter / Uniform / UniformAroundCenter, PaintRotate(AroundCenter), PaintSkew(AroundCenter), PaintComposite(SRC_IN, solid "
     "black alpha); all extend modes; 1-3 palettes; foreground colour; COLRv0 fonts too; viewBox callback in {glyph_region, fixed square, offset "
     "non-square}. Oracle: display tree of colr_to_svg's output (own SVG interpreter), mapped back to the em box by the statement's rule with the "
@@ -78,6 +78,10 @@ def fill(draw, npal):
     if (fx, fy) == (cx, cy):
         fx += 7
     r0 = draw(st.sampled_from([0, 0, 1])) * draw(ints(1, max(1, int(0.25 * r1 * (1 - rho)))))
+    if draw(st.sampled_from([False] * 4 + [True])):
+        # concentric circles, with or without an inner radius (a ring gradient)
+        fx, fy = cx, cy
+        r0 = draw(st.sampled_from([0, 1, 1])) * draw(ints(1, max(1, int(0.6 * r1))))
     return {"Format": 6, "ColorLine": draw(colorline(npal)), "x0": fx, "y0": fy, "r0": r0, "x1": cx, "y1": cy, "r1": r1}
 
 
